@@ -442,6 +442,10 @@ pub fn run_c13<C: NatCtx>(v: &mut Env<C>) {
     let mut check = |v: &mut Env<C>, op: &str, bs: &[u8]| {
         let r = des_op(v, op, bs);
         v.h.check(r != Out::Panic, || format!("{} panics on {:?} ({})", op, if bs.len() > 80 { &bs[..80] } else { bs }, tok));
+        // memory in proportion to the input (measured by the counting allocator; a TEST)
+        let peak = v.h.last_peak;
+        v.h.stat_n("alloc_peak_max_bytes_x", 0);
+        v.h.check(peak <= 64 * bs.len() + (1 << 20), || format!("{} allocated {} bytes at peak for {} input bytes {:?} ({})", op, peak, bs.len(), if bs.len() > 40 { &bs[..40] } else { bs }, tok));
     };
     // fixed adversarial strings for every decoder
     let fixed: Vec<Vec<u8>> = vec![
